@@ -529,6 +529,7 @@ fn main() {
     // a single request above 64 MiB + 16 x (largest input, < 1 MiB) is refused => recorded abort
     alloc::set_cap(64 * 1024 * 1024 + 16 * (1 << 20));
     tz::verif_hooks::set_clock(world::sim_clock);
+    seam::set_fs_hook(world::fs_request_hook);
     for k in ["TZ", "TZDIR", "LANG", "LC_ALL", "LC_TIME"].iter().chain(exec::DECOY_VARS.iter()) {
         std::env::remove_var(k);
     }
@@ -602,5 +603,6 @@ fn main() {
             2
         }
     };
+    let _ = std::fs::remove_dir_all(world::live_dir());
     std::process::exit(code);
 }
